@@ -12,8 +12,13 @@ MUT = [('absorbing-rows-not-zeroed', CF, "    I_m_Q[absorbing_states, :] = 0.0\n
 def run(tier, seed, update_lock=False):
     R = Run('C07', 'other', tier, seed)
     u = Unit('committor-system', TC.registry(), mutants=MUT, budget=25)
-    R.prove(u)
-    R.canary_check(u)
+    u2 = Unit('mfpt-system[sink set]', TC.registry_mfpts(), keys=[TC.F + 'mfpts'],
+              mutants=[('lag-dropped', CF, "        mfpts = lagtime * np.linalg.solve(I_m_Q, c)", "        mfpts = np.linalg.solve(I_m_Q, c)"),
+                       ('sinks-not-zero', CF, "        c[sinks] = 0\n", "        pass\n")])
+    for x in (u, u2):
+        R.prove(x)
+    for x in (u, u2):
+        R.canary_check(x)
     R.lemma('Committor.lean', 'point-wise system construction (_I_m_Q, R) + exact solve + injective sink list => q=0 on sources, 1 on sinks, q_i = sum_j T_ij q_j elsewhere')
     R.lemma('Mfpt.lean', 'sink-set MFPT system => t=0 on sinks, t_i = lag + sum_j T_ij t_j elsewhere')
     R.bounded('tpt.py', 'run-time contracts (the statement) on the real committors / mfpts', 'irreducible stochastic matrices 3..5 states (reversible, non-reversible, high barrier), all disjoint source/sink sets of sizes 1-2, ndarray/csr/lil, lags 1 and 3.5, np.matrix input', args=['--only=C07'])
@@ -21,7 +26,8 @@ def run(tier, seed, update_lock=False):
     resolve_failures(R, 'tpt.py', lambda f: None)
     R.clauses = [{'clause': 'first-step equations follow from the point-wise linear system the code builds', 'status': 'lemma (Lean 4 + Mathlib) over the contract clauses of _I_m_Q / committors / mfpts'},
                  {'clause': 'committors: the code builds exactly that system (I - T with absorbing rows and columns zeroed and unit diagonal there; right-hand side 1 on sinks, 0 on sources, T[i, sink] elsewhere; B solves it; q = row sums of B with sinks pinned to 1)', 'status': 'proved (SMT on the real _I_m_Q and committors; fancy-index stores modelled by list membership)'},
-                 {'clause': 'mfpts system construction and lag scaling', 'status': 'bounded'},
+                 {'clause': 'mfpts to a sink set: system matrix, right-hand side 0 on sinks / 1 elsewhere, result = lag time x an exact solution (hence linear in the lag time)', 'status': 'proved (SMT on the real mfpts, sink-set branch)'},
+                 {'clause': 'all-pairs table (fundamental-matrix formula)', 'status': 'bounded'},
                  {'clause': 'committors in [0,1]; all-pairs table = single-sink computation; linear in lag; dense = sparse; inputs unchanged', 'status': 'bounded'}]
     R.assumptions += ['scipy spsolve / numpy solve / inv are exact up to 1e-8', 'maximum principle and Kemeny-Snell identity are not proved']
     return R.finish('Lean lemmas over the system-construction clauses + bounded run-time contracts of the statement on the real functions.', update_lock=update_lock)
